@@ -4,9 +4,9 @@ package websocket
 
 import (
 	"context"
-	"os"
 	"net/http"
 	"net/http/httptest"
+	"os"
 	"strings"
 	"time"
 
